@@ -30,12 +30,33 @@ pub enum ThunkState {
 }
 
 /// The mutable data stored inside a thunk.
-#[derive(Clone, Debug, PartialEq)]
+#[derive(Debug, PartialEq)]
 pub struct ThunkData {
     inner: InnerThunkData,
     state: ThunkState,
     /// A flag indicating whether the thunk is locked. See [Thunk::lock].
     locked: bool,
+}
+
+/// Copying the data of a thunk creates a new, independent thunk (this happens, for example, in
+/// [Thunk::saturate] for standard thunks, or whenever a shared value block holding a thunk is
+/// made unique, as in `NickelValue::with_pos_idx`). The copy is referenced by no update frame on
+/// the evaluation stack and is not part of any ongoing `lock`/`unlock` bracket. It must thus
+/// never be born black-holed or locked: it would neither be updated when the evaluation of the
+/// original finishes, nor reset when the stack is unwound after an error, and any later access
+/// to it would report a spurious infinite recursion. A black-holed thunk still holds its
+/// unevaluated closure, so the copy is an ordinary suspended thunk.
+impl Clone for ThunkData {
+    fn clone(&self) -> Self {
+        ThunkData {
+            inner: self.inner.clone(),
+            state: match self.state {
+                ThunkState::Blackholed => ThunkState::Suspended,
+                state => state,
+            },
+            locked: false,
+        }
+    }
 }
 
 /// The part of [ThunkData] responsible for storing the closure itself. It can either be:
@@ -349,10 +370,16 @@ impl ThunkData {
     where
         F: FnMut(&Closure) -> Closure,
     {
+        // As for `clone`: the new thunk must not be born black-holed.
+        let state = match self.state {
+            ThunkState::Blackholed => ThunkState::Suspended,
+            state => state,
+        };
+
         match self.inner {
             InnerThunkData::Standard(ref c) => ThunkData {
                 inner: InnerThunkData::Standard(f(c)),
-                state: self.state,
+                state,
                 locked: false,
             },
             InnerThunkData::Revertible {
@@ -365,7 +392,7 @@ impl ThunkData {
                     cached: cached.as_ref().map(f),
                     deps: deps.clone(),
                 },
-                state: self.state,
+                state,
                 locked: false,
             },
         }
